@@ -11,7 +11,9 @@
  * What the harness adds, and nothing more:
  *   - osmo_panic() / talloc abort: recorded in a flag, then longjmp back to the wrapper that
  *     was entered from Python, so that MSGB_ABORT never continues into the overrun it
- *     announces and the process is never aborted;
+ *     announces and the process is never aborted; SIGSEGV/SIGBUS raised while one of the
+ *     wrappers is active are treated the same way (handlers installed by hx_init, removed
+ *     by hx_fini; objects must be finalised in reverse order of initialisation);
  *   - malloc/free/realloc/calloc of the whole object are wrapped (ld --wrap): every block gets
  *     guard zones in front and behind, freed blocks are poisoned and kept in quarantine until
  *     the end of the run; hx_mem_check() verifies guards and poison;
@@ -29,6 +31,7 @@
 #include <string.h>
 #include <stdarg.h>
 #include <setjmp.h>
+#include <signal.h>
 #include <errno.h>
 
 #include <osmocom/core/msgb.h>
@@ -87,6 +90,44 @@ static void hx_talloc_abort(const char *reason)
 	hx_panic_str("talloc abort: %s", reason);
 	if (hx_jmp_active)
 		longjmp(hx_jmp, 1);
+}
+
+/* a wild access inside the code under test: same treatment as a panic */
+static struct sigaction hx_old_segv, hx_old_bus;
+static int hx_sig_installed;
+
+static void hx_sig_restore(void)
+{
+	if (hx_sig_installed) {
+		sigaction(SIGSEGV, &hx_old_segv, NULL);
+		sigaction(SIGBUS, &hx_old_bus, NULL);
+		hx_sig_installed = 0;
+	}
+}
+
+static void hx_sig_handler(int sig, siginfo_t *si, void *uc)
+{
+	(void) si;
+	(void) uc;
+	if (hx_jmp_active) {
+		hx_panic_str("signal %d: invalid memory access inside the code under test", sig);
+		longjmp(hx_jmp, 1);
+	}
+	/* not ours: hand back to whoever was installed before and let the access fault again */
+	hx_sig_restore();
+}
+
+static void hx_sig_install(void)
+{
+	struct sigaction sa;
+
+	memset(&sa, 0, sizeof(sa));
+	sa.sa_sigaction = hx_sig_handler;
+	sa.sa_flags = SA_SIGINFO | SA_NODEFER;
+	sigemptyset(&sa.sa_mask);
+	sigaction(SIGSEGV, &sa, &hx_old_segv);
+	sigaction(SIGBUS, &sa, &hx_old_bus);
+	hx_sig_installed = 1;
 }
 
 EXPORT int hx_panicked(void)
@@ -271,6 +312,7 @@ EXPORT void hx_fini(void)
 {
 	unsigned int i;
 
+	hx_sig_restore();
 	for (i = 0; i < hx_nallocs; i++) {
 		__real_free(hx_allocs[i].base);
 		hx_allocs[i].base = NULL;
@@ -283,7 +325,7 @@ EXPORT void hx_fini(void)
 EXPORT int hx_mem_check(void) { return 0; }
 EXPORT const char *hx_mem_msg(void) { return ""; }
 EXPORT int hx_mem_live(void) { return 0; }
-EXPORT void hx_fini(void) { }
+EXPORT void hx_fini(void) { hx_sig_restore(); }
 
 /* if the sanitizer runtime is present and was told not to halt (ASAN_OPTIONS=halt_on_error=0),
  * turn its report into the panic flag */
@@ -534,6 +576,8 @@ EXPORT int hx_rx_bufsize(void)
 
 EXPORT int hx_init(void)
 {
+	if (!hx_sig_installed)
+		hx_sig_install();
 	HX_ENTER(-99);
 	talloc_set_abort_fn(hx_talloc_abort);
 #ifdef HX_NOWRAP
